@@ -66,19 +66,22 @@ def prepare_model_dir(work, programs):
 def family(tier, seed_, which):
     """program families: 'small' is model checked exhaustively over all schedules; 'large' is only simulated / traced"""
     if which == "small":
-        n = 60 if tier == "quick" else 400
+        n = 40 if tier == "quick" else 380        # random programs, in addition to the hand-written ones
         # every schedule of these is explored, so the number of (expanded) lines is bounded: the interleavings of more than
         # about six outstanding lines make a single program's state space explode
         cand = progs_mod.generate(4 * n, 1000 + seed_, max_forms=2, max_lines=3, max_inputs=2, depth=2)
-        out = []
-        for p in cand:
+        nh = len(progs_mod.HANDMADE)
+        out, nrand = [], 0
+        for k, p in enumerate(cand):
             x = progs_mod.expand(p)
             if len(x["all_lines"]) <= 6 and len(x["all_inputs"]) <= 3:
+                if k >= nh:
+                    if nrand == n:
+                        continue
+                    nrand += 1
                 out.append(p)
-            if len(out) == n:
-                break
         return out
-    n = 40 if tier == "quick" else 300
+    n = 25 if tier == "quick" else 280         # random programs, in addition to the hand-written ones
     ps = progs_mod.generate(n, 2000 + seed_, max_forms=3, max_lines=5, max_inputs=3, depth=3)
     for p in ps:
         p["id"] += 10000
